@@ -1294,3 +1294,39 @@ Proof.
   destruct (cog_resolution _ _ _ _ _ _ _ _ _ _ _ H) as (rx & ry & C & A1 & A2).
   unfold chosen in C. rewrite Z.eqb_refl in C. injection C as C. rewrite C. simpl. auto.
 Qed.
+
+(** * The footprint request: buffer distance and densification *)
+Lemma qmax_ge x y : x <= qmax x y /\ y <= qmax x y.
+Proof.
+  unfold qmax. destruct (Qle_bool x y) eqn:E.
+  - apply Qle_bool_true in E. lra.
+  - apply Qle_bool_false in E. lra.
+Qed.
+
+Lemma footprint_buffer_grows b rx ry :
+  0 < b -> ~ rx == 0 -> ~ ry == 0 ->
+  0 < footprint_buffer b (rx, ry) /\
+  b * Qabs rx <= footprint_buffer b (rx, ry) /\ b * Qabs ry <= footprint_buffer b (rx, ry).
+Proof.
+  intros Hb Hx Hy. unfold footprint_buffer. cbn [fst snd].
+  pose proof (abs_pos_of_nonzero rx Hx) as Px. pose proof (abs_pos_of_nonzero ry Hy) as Py.
+  destruct (qmax_ge (Qabs rx) (Qabs ry)) as [M1 M2].
+  set (m := qmax (Qabs rx) (Qabs ry)) in *. set (ax := Qabs rx) in *. set (ay := Qabs ry) in *.
+  repeat split; nra.
+Qed.
+
+Lemma footprint_buffer_unrepaired_shrinks :
+  exists rs, ~ fst rs == 0 /\ ~ snd rs == 0 /\ footprint_buffer_unrepaired (9 # 10) rs < 0.
+Proof.
+  exists (-(10 # 1), -(10 # 1)). cbn [fst snd]. split; [intros C; discriminate|]. split; [intros C; discriminate|].
+  vm_compute. reflexivity.
+Qed.
+
+Lemma footprint_npoints_spec ny nx :
+  (100 <= footprint_npoints ny nx <= 10000)%Z /\
+  (Z.max ny nx < 256 * 10001 -> Z.max ny nx < 256 * (footprint_npoints ny nx + 1))%Z.
+Proof.
+  unfold footprint_npoints. set (n := Z.max ny nx).
+  pose proof (Z.div_mod n 256 ltac:(lia)) as D. pose proof (Z.mod_pos_bound n 256 ltac:(lia)) as M.
+  lia.
+Qed.
